@@ -76,6 +76,8 @@ EventOk(e) ==
 Summary(v) == IF v.k \in {"int", "bool", "float"} /\ "v" \in DOMAIN v THEN [k |-> v.k, v |-> v.v]
               ELSE IF v.k = "array" THEN [k |-> "array", tag |-> v.tag, n |-> Len(v.es)]
               ELSE [k |-> v.k]
+TupleMembers(ty, n) == SelectSeq(ty.ms, LAMBDA m : m.k = "tuple" /\ Len(m.es) = n)
+NoMemberTakes(v, ty, i) == \A m \in ToSet(TupleMembers(ty, Len(v.es))) : ~InType(v.es[i], m.es[i])
 RECURSIVE Witness(_, _, _)
 Witness(v, ty, exh) ==
   LET t == Unwire(ty) IN
@@ -83,6 +85,14 @@ Witness(v, ty, exh) ==
      /\ \E i \in 1..Len(v.es) : ~InType(v.es[i], ty.es[i])
   THEN LET i == CHOOSE i \in 1..Len(v.es) : ~InType(v.es[i], ty.es[i]) /\ \A j \in 1..(i - 1) : InType(v.es[j], ty.es[j])
        IN Witness(v.es[i], ty.es[i], Len(v.es) = 2 /\ i = 2 /\ v.es[1].k = "bool" /\ v.es[1].v = FALSE)
+  ELSE IF v.k = "tuple" /\ ty.k = "multi" /\ TupleMembers(ty, Len(v.es)) # <<>>
+          /\ \E i \in 1..Len(v.es) : NoMemberTakes(v, ty, i)
+  THEN \* union of tuple types (e.g. the result of a callee of type ()->(bool, int) | ()->(bool, float)): the first
+       \* component no tuple member of the union admits, judged against the union of the members' components
+       LET ms == TupleMembers(ty, Len(v.es))
+           i == CHOOSE i \in 1..Len(v.es) : NoMemberTakes(v, ty, i) /\ \A j \in 1..(i - 1) : ~NoMemberTakes(v, ty, j)
+       IN Witness(v.es[i], [k |-> "multi", ms |-> [m \in 1..Len(ms) |-> ms[m].es[i]]],
+                  Len(v.es) = 2 /\ i = 2 /\ v.es[1].k = "bool" /\ v.es[1].v = FALSE)
   ELSE IF v.k = "array" /\ ty.k = "array" /\ Matches(Arr(Unwire(v.tag)), t)
           /\ \E i \in 1..Len(v.es) : ~InType(v.es[i], ty.e)
   THEN Witness(v.es[CHOOSE i \in 1..Len(v.es) : ~InType(v.es[i], ty.e)], ty.e, FALSE)
